@@ -46,7 +46,7 @@ fn share_pred(ex: &Exec, at: usize) -> &'static str {
 }
 
 fn mk(spec: &WorldSpec, ex: &Exec, clause: &str, at: usize, detail: String) -> Viol {
-    if spec.op == Op::Share {
+    if spec.op == Op::Share || matches!(spec.op, Op::Net(n) if n.starts_with("share(")) {
         viol_pred(spec, clause, share_pred(ex, at), at, detail)
     } else {
         viol(spec, clause, at, detail)
@@ -156,8 +156,8 @@ pub fn c04(spec: &WorldSpec, ex: &Exec) -> Option<Viol> {
     let mut p_over = vec![false; np];
     let mut p_sent_err: Vec<Option<u16>> = vec![None; np];
     let mut p_recv_err = vec![false; np];
-    let is_share = spec.op == Op::Share;
-    let is_flatten = spec.op == Op::Flatten;
+    let is_share = spec.op == Op::Share || matches!(spec.op, Op::Net(n) if n.starts_with("share("));
+    let is_flatten = spec.op == Op::Flatten || matches!(spec.op, Op::Net(n) if n.contains("flatten"));
     let is_foreach = matches!(spec.op, Op::ForEach(_));
     let mut found: Option<Viol> = None;
     let mut subs_per: std::collections::HashMap<(u8, u8), u32> = Default::default();
@@ -248,7 +248,7 @@ pub fn c04(spec: &WorldSpec, ex: &Exec) -> Option<Viol> {
                                 }
                             } else if is_share {
                                 live_share_subs += 1;
-                                if live_share_subs > 1 {
+                                if live_share_subs > 1 && spec.op == Op::Share {
                                     found = Some(viol(spec, "two-live-upstream-subscriptions", i, "share holds two live upstream subscriptions".into()));
                                     return;
                                 }
@@ -372,7 +372,7 @@ pub fn c05(spec: &WorldSpec, ex: &Exec) -> Option<Viol> {
     let own = owners(ex);
     let np = ex.probes.len();
     let ns = ex.subs.len();
-    let is_share = spec.op == Op::Share;
+    let is_share = spec.op == Op::Share || matches!(spec.op, Op::Net(n) if n.starts_with("share("));
     let mut p_over = vec![false; np];
     let mut p_greeted = vec![false; np];
     let mut p_errs: Vec<Vec<u16>> = vec![vec![]; np];
